@@ -179,6 +179,7 @@ class Prop(object):
             u.append(('keyswap', {'signer': signer}))
             u.append(('carried', {'signer': signer}))
             u.append(('confusion', {'signer': signer}))
+            u.append(('strdocs', {'signer': signer}))
             u.append(('sequence', {'signer': signer, 'depth': 3 if tier == 'quick' else 4}))
         if tier == 'thorough':
             for signer in B2_SIGNERS:
@@ -771,6 +772,44 @@ class Prop(object):
                                 'certificate whose second signing subkey carries the cross-signature made by the first')
         r.dim('signer', signer)
         r.samples.append({'carried': signer})
+        return r
+
+    def c_strdocs(self, case):
+        """Documents given as Python strings: characters that have no UTF-8 encoding (unpaired surrogates, as surrogateescape-decoded file names and
+        arguments contain them), the replacement characters an encoder may put in their place, and strings that differ only in such characters.  A
+        signature over one string is not a signature over another one (an encoding error is an error, it is not a truthy verification)."""
+        import pgpy
+        from pgpy.constants import HashAlgorithm
+        r = Res()
+        signer = case['signer']
+        key, raw = S.signer_cert(signer)
+        pub = key.pubkey
+        marks = ['?', '\ufffd', '\ud800', '\udc80', '\udfff', '\udcff', '', ' ', '\u00bf']
+        tags = {'mut': 'subject', 'grp': 'str-document'}
+        for template in ('Pay 100%s to Bob', '%s', 'tail %s'):
+            for a in marks:
+                try:
+                    sig = key.sign(template % a, hash=HashAlgorithm.SHA256, created=K.dt(S.SIG_T))
+                    pk = bytes(sig.__bytearray__())
+                except (UnicodeError, pgpy.errors.PGPError):
+                    r.outcomes['base:cannot-sign-unencodable-text'] += 1
+                    continue
+                v0 = self._verdict(pub, template % a, pk)
+                r.states += 1
+                r.transitions += 1
+                r.outcomes['base:' + v0] += 1
+                if v0 != 'truthy':
+                    r.viol('base-rejected', {'scn': 'str-document'}, dict(case), 'signature over the string %r does not verify over that string: %s' % (template % a, v0))
+                    continue
+                for b in marks:
+                    if b == a:
+                        continue
+                    if case.get('only') is not None and case['only'] != [template, a, b]:
+                        continue
+                    self._judge(r, 'different', self._verdict(pub, template % b, pk), tags, dict(case, only=[template, a, b]),
+                                'signature by %s over the string %r presented for the string %r' % (signer, template % a, template % b))
+        r.dim('signer', signer)
+        r.samples.append({'marks': [repr(m) for m in marks]})
         return r
 
     def c_confusion(self, case):
